@@ -192,6 +192,35 @@ theorem mapE_pyIdx {n : Nat} {is : List Int} {idx : List Nat}
             · exact h1 i hm
           · simp [hp, h2]
 
+theorem mapE_pyIdx_error {n : Nat} {is : List Int} {e : Err}
+    (h : mapE (fun i => match pyIdx n i with | some j => Except.ok j | Option.none => Except.error Err.index) is
+      = .error e) : e = .index ∧ ∃ i ∈ is, pyIdx n i = Option.none := by
+  induction is with
+  | nil => simp [mapE] at h
+  | cons a as ih =>
+    simp only [mapE] at h
+    cases hp : pyIdx n a with
+    | none =>
+      simp only [hp] at h
+      cases h
+      exact ⟨rfl, a, List.mem_cons_self, hp⟩
+    | some j =>
+      simp only [hp] at h
+      split at h
+      · rename_i e' he'
+        cases h
+        obtain ⟨h1, i, hi, h2⟩ := ih he'
+        exact ⟨h1, i, List.mem_cons_of_mem _ hi, h2⟩
+      · cases h
+
+theorem filterMap_congr' {α β} {f g : α → Option β} {l : List α} (h : ∀ x ∈ l, f x = g x) :
+    l.filterMap f = l.filterMap g := by
+  induction l with
+  | nil => rfl
+  | cons a as ih =>
+    simp only [List.filterMap_cons, h a List.mem_cons_self]
+    rw [ih (fun x hx => h x (List.mem_cons_of_mem _ hx))]
+
 theorem getTake_ok {t t' : Table} {n : Nat} (h : t.Rect n) (hne : t ≠ []) {is : List Int}
     (ht : t.getTake is = .ok t') :
     t'.cols = t.cols ∧ (∀ i ∈ is, (pyIdx n i).isSome) ∧
